@@ -374,6 +374,9 @@ def run(ctx):
     from .. import querycamp
     if querycamp.run(ctx, "C08", parts=("rw",)):      # queries between writes / reads of a read/write handle
         found = True
+    from .. import cmdops
+    if cmdops.run(ctx, "C08", fs, quick):             # every position-neutral sf_command x last operation x next operation, pointers apart
+        found = True
     ctx.notes["rdwr_refused_at_open"] = skipped
     ctx.notes["known_finding_class_hits"] = kf_hits
     # ---- C: hole histories (write / extending truncate beyond the end of the data), vlib/c08holes.py ----
